@@ -2369,15 +2369,18 @@ def match_sections(ds, matching_sections):
             + str(txs)
         )
 
-    hix = ds.dts.ufunc_per_section(
-        sections={0: [i[0] for i in matching_sections]},
-        x_indices=True,
-        calc_per="all",
-        suppress_section_validation=True,
-    )
-
+    hixl = []
     tixl = []
-    for _, tslice, reverse_flag in matching_sections:
+    for hslice, tslice, reverse_flag in matching_sections:
+        # per pair, so that the heads stay aligned with their own tails
+        hixl.append(
+            ds.dts.ufunc_per_section(
+                sections={0: [hslice]},
+                x_indices=True,
+                calc_per="all",
+                suppress_section_validation=True,
+            )
+        )
         ixi = ds.dts.ufunc_per_section(
             sections={0: [tslice]},
             x_indices=True,
@@ -2390,6 +2393,7 @@ def match_sections(ds, matching_sections):
         else:
             tixl.append(ixi)
 
+    hix = np.concatenate(hixl)
     tix = np.concatenate(tixl)
 
     return np.stack((hix, tix)).T
